@@ -98,6 +98,14 @@ def gen_cases(rng, tier, scale):
              {'p': '{{> q1}}\nx\n', 'q1': 'after\n'}, {'p': '{{> q1}}\nx\n', 'q1': '{{#each l0}}x{{/each}}{{e}}after\n'},
              {'p': '{{#if t}}\na\nb\n{{/if}}\nx\n'}, {'p': '{{one}} tail\nx\n'}, {'p': '{{> q1}}', 'q1': '{{> q2}}\ny\n', 'q2': 'deep\n'},
              {'p': '{{#each l}}\n{{> q1}}\n{{/each}}\n', 'q1': 'it\n'}, {'p': 'plain\n{{> q1}}\n', 'q1': '{{ml}}\n'}]
+    # an indented standalone call written with a TRAILING tilde only: the tag is still standalone and indented
+    for k, pbody in enumerate(['l1\nl2\n', '{{one}}\n{{ml}}\n', '{{#if t}}\na\n{{/if}}\nb\n']):
+        for W in ('  ', '\t '):
+            for call, grp0 in ((W + '{{> p ~}}\nZ\n', 'tt'), ('A\n' + W + '{{> p~}}\n\nZ\n', 'tu')):
+                grp = f'{grp0}{k}w{len(W)}{ord(W[0])}'
+                cases.append(rcase(f'{grp}m', call, DATA, partials={'p': pbody}, entry=0, kind='main', grp=grp, W=W, where='first' if grp0 == 'tt' else 'top', pi=False, tags=['trailing-tilde-call']))
+                ops = [f'regs {x("p")} {x(pbody)}', f'r 0 {x("p")} {jtok(DATA)} -1']
+                cases.append({'line': f'{grp}p ' + ' ; '.join(ops), 'kind': 'alone', 'grp': grp, 'tpl': pbody, 'tags': ['alone']})
     for k, parts in enumerate(FIRST):
         for W in ('  ', '\t'):
             for entry in (0, 2, 4, 6, 7):
